@@ -70,6 +70,9 @@ class Ctx:
         model_out = common.run_model(lines)
         for l, a, b in zip(lines, model_out, impl_out):
             if a != b:
+                if 'OUTSIDE-MODEL' in a and os.environ.get('VERIF_ALLOW_OUTSIDE'):
+                    self.count('outside-model-skipped')
+                    continue
                 if 'OUTSIDE-MODEL' in a:
                     # the harness generated an input the model does not cover: a harness bug, not
                     # a finding about pyais
